@@ -179,6 +179,10 @@ type ApplyOpts struct {
 	Whitelist map[int64]bool
 	PreCommit func() string // called after Resume, before Commit; non-empty = oracle failure
 	Touched   *int64
+	// FirstPass (in-place only): before the full application, another patcher applies the same patch with
+	// this whitelist onto the SAME bowl object (Bowl.Resume(nil) keeps what is recorded); files handled by
+	// both passes are recorded twice and the bowl's work lists must stay free of duplicates
+	FirstPass map[int64]bool
 }
 
 type PreCommitError struct{ Msg string }
@@ -261,6 +265,16 @@ func ApplyInPlace(patch []byte, dir, stage string, o *ApplyOpts) error {
 		b = o.WrapBowl(b)
 	}
 	defer b.Close()
+	if o.FirstPass != nil {
+		p1, err := patcher.New(Source(patch), Quiet())
+		if err != nil {
+			return fmt.Errorf("patcher.New (first pass): %w", err)
+		}
+		p1.SetSourceIndexWhitelist(o.FirstPass)
+		if err := p1.Resume(nil, fspool.New(p1.GetTargetContainer(), dir), b); err != nil {
+			return fmt.Errorf("Resume (first pass, whitelist): %w", err)
+		}
+	}
 	if err := p.Resume(nil, tp, b); err != nil {
 		return fmt.Errorf("Resume: %w", err)
 	}
